@@ -354,6 +354,61 @@ def analyse(prog: Program):
                             violations.append({"class": ci.name, "attr": attr, "defined_in": fi, "line": node.lineno, "dep": a, "writer": w,
                                                "what": f"self.{attr} is computed from self.{a} in {fi.qualname} but {w.qualname} assigns self.{a} "
                                                        f"without updating or resetting self.{attr}: stale derived state after the assignment"})
+    # state parked on somebody else's object: `z._memo = f(z.data)` in a function that is not a method of z's class.  No setter
+    # of that class can know about the attribute, so nothing resets it; when it is computed from the sample buffer it is stale
+    # after any in-place change of the samples.
+    from . import memo as _memo
+    storage = None
+    for fi in prog.all_functions:
+        if not isinstance(fi.node, (ast.FunctionDef, ast.AsyncFunctionDef)):
+            continue
+        params = {a.arg for a in list(fi.node.args.posonlyargs) + list(fi.node.args.args) + list(fi.node.args.kwonlyargs)} - {"self", "cls"}
+        sl = None
+        for n in ast.walk(fi.node):
+            if not isinstance(n, ast.Assign):
+                continue
+            for t in n.targets:
+                if not (isinstance(t, ast.Attribute) and isinstance(t.value, ast.Name) and t.value.id in params):
+                    continue
+                p_, attr = t.value.id, t.attr
+                n_stores += 1
+                # a public property with a setter of one of the package's classes is that class's own business
+                if any(c.find_property(attr) is not None and c.find_property(attr).get("set") is not None for c in classes):
+                    continue
+                if sl is None:
+                    sl = _memo.Slice(fi.node)
+                    storage = storage or _memo.Storage(prog)
+                atoms_ = {a for a in sl.atoms(n.value, n.lineno) if a[0] == p_ and a[1]}
+                if not atoms_:
+                    continue
+                need = set()
+                for r_, c_, _ in atoms_:
+                    first = c_[0]
+                    if first.startswith("<"):
+                        need.add(("_data", "meta"))
+                        continue
+                    cands = storage.of(None, first)
+                    if cands:
+                        meta_only = len(c_) > 1 and c_[1] in _memo.META_TAILS
+                        for _, rd in cands:
+                            need |= {(a, "meta" if meta_only and m == "content" else m) for a, m in rd}
+                    else:
+                        need.add((first, "content"))
+                rec = {"class": "(argument `" + p_ + "`)", "attr": attr, "in": fi.qualname, "where": fi.where, "line": n.lineno,
+                       "deps": sorted(f"{a} ({m})" for a, m in need)}
+                derived.append(rec)
+                buf = [a for a, m in need if m == "content" and a in BUFFER_ATTRS]
+                if buf:
+                    why = (f"{fi.qualname} parks `{p_}.{attr}` on its argument, computed from the contents of {p_}.{buf[0].lstrip('_')}: "
+                           f"{BUFFER_ATTRS[buf[0]]}, and no method of the argument's class knows the attribute, so it goes stale")
+                else:
+                    why = (f"{fi.qualname} parks `{p_}.{attr}` on its argument, computed from {sorted(a for a, _ in need)}: no setter of the "
+                           "argument's class knows the attribute, so nothing resets it when that state is assigned")
+                key = ("(argument)", fi.qualname, attr)
+                if key not in reported:
+                    reported.add(key)
+                    violations.append({"class": "(argument)", "attr": attr, "defined_in": fi, "line": n.lineno, "dep": ", ".join(sorted(a for a, _ in need)),
+                                       "writer": None, "what": why})
     return {"derived": derived, "violations": violations, "undecided": undecided, "classes": n_cls, "stores": n_stores}
 
 
@@ -462,7 +517,14 @@ def check(run, prog: Program, pid, rule="RS"):
            "the coherence rule reports the first variant and is silent on the second (built from today's source on every run)",
            True if (fired and silent) else None, found=f"fired={fired} silent={silent}")
     run.floor(rule, "classes examined for derived state", res["classes"], 15)
-    mine = [v for v in res["violations"] if v["attr"] in loaded]
+    for f in funcs:
+        for n in ast.walk(f.node):
+            # getattr(self, "_memo", None) / hasattr / setattr spell an attribute as a string
+            if isinstance(n, ast.Call) and isinstance(n.func, ast.Name) and n.func.id in ("getattr", "hasattr", "setattr") and len(n.args) >= 2 \
+                    and isinstance(n.args[1], ast.Constant) and isinstance(n.args[1].value, str):
+                loaded.add(n.args[1].value)
+    fids = {id(f) for f in funcs}
+    mine = [v for v in res["violations"] if v["attr"] in loaded or id(v["defined_in"]) in fids]
     for v in mine:
         fi = v["defined_in"]
         run.ob(rule, fi.where, f"self.{v['attr']} <- self.{v['dep']}" + (f" / {v['writer'].qualname}" if v["writer"] else ""),
